@@ -14,7 +14,7 @@ STATIC = {
 PROPS = {
     "C01": dict(
         title="Civil calendar facts are exactly the proleptic Gregorian calendar",
-        verus=["itime", ("itime", "_static", STATIC), "kspec"],
+        verus=["itime", ("itime", "_static", STATIC), "kspec", "civiladd"],
         kani_quick=["c01_civil"],
         kani_thorough=[],
         design_ref="DESIGN.md section 4, C01",
@@ -34,7 +34,7 @@ PROPS = {
     ),
     "C04": dict(
         title="Civil-to-instant resolution finds gaps/folds exactly; strategies as documented",
-        verus=["tzif", "posix"],
+        verus=["tzif", "posix", "ambig", "zoned"],
         kani_quick=[], kani_thorough=[],
         design_ref="DESIGN.md section 4, C04",
     ),
@@ -64,7 +64,7 @@ PROPS = {
     ),
     "C13": dict(
         title="Every Zoned value is internally consistent with its time zone",
-        verus=["zoned"],
+        verus=["zoned", "ambig"],
         kani_quick=[], kani_thorough=[],
         design_ref="DESIGN.md section 4, C13",
     ),
@@ -78,7 +78,7 @@ PROPS = {
     ),
     "C05": dict(
         title="Fallible operations return errors: no panics, no out-of-range results",
-        verus=["posix", "tzif", "rounders", "sdur", "zoned", "span", "civiladd", "civildiff"],
+        verus=["posix", "tzif", "rounders", "sdur", "zoned", "span", "civiladd", "civildiff", "ambig"],
         all_fns=True,
         kani_quick=["c01_civil", "c02_wrappers"],
         kani_thorough=["c10_model"],
